@@ -52,10 +52,11 @@ def _protected_attr(e):
     return isinstance(e, ast.Attribute) and e.attr in PROTECTED
 
 
-def r1_writers(ctx):
-    ctx.rule("C01.R1", "closed set of writers of State._values / State._last_fork (package-wide; subscripts, mutator calls, rebinding, setattr, aliases)", 14)
-    ctx.rule("C01.R1b", "the cache dictionary escapes only to read-only callees", 2)
-    ctx.rule("C01.R1c", "every `compute(state)` of a variable class only reads its argument", 2)
+def r1_writers(ctx, ids=("C01.R1", "C01.R1b", "C01.R1c")):
+    R1, R1B, R1C = ids
+    ctx.rule(R1, "closed set of writers of State._values / State._last_fork (package-wide; subscripts, mutator calls, rebinding, setattr, aliases)", 14)
+    ctx.rule(R1B, "the cache dictionary escapes only to read-only callees", 2)
+    ctx.rule(R1C, "every `compute(state)` of a variable class only reads its argument", 2)
     ix = ctx.ix
     for f in ix.iter_funcs():
         ctx.analysed(f)
@@ -97,7 +98,7 @@ def r1_writers(ctx):
                         cn = call_name(n)
                         short = cn.split(".")[-1] if cn not in ESCAPES_OK else cn
                         ok = (cn in ESCAPES_OK or short in ESCAPES_OK) and f.mod == STATE
-                        ctx.check(ok, "C01.R1b", f, n, f"{owner(a)} handed to {cn}: {ESCAPES_OK.get(cn, ESCAPES_OK.get(short, ''))}",
+                        ctx.check(ok, R1B, f, n, f"{owner(a)} handed to {cn}: {ESCAPES_OK.get(cn, ESCAPES_OK.get(short, ''))}",
                                   f"cache dictionary `{owner(a)}` escapes to `{cn}` which is not a confirmed read-only callee")
         for n, attr, how in sites:
             allowed = f.mod == STATE and f.qual in WRITERS[attr]
@@ -107,7 +108,7 @@ def r1_writers(ctx):
                 callers = _callers_of_private(ix, f.qual.split(".", 1)[1])
                 outside = sorted(q for (m, q) in callers if not (m == STATE and q in WRITERS[attr]))
                 allowed, via = not outside, (outside[0] if outside else None)  # no caller left: every call was read in place (index-time inlining of writer helpers)
-            ctx.check(allowed, "C01.R1", f, n, f"{how} of {attr} inside an owner method" + (" (private helper called by owner methods only)" if f.qual not in WRITERS[attr] else ""),
+            ctx.check(allowed, R1, f, n, f"{how} of {attr} inside an owner method" + (" (private helper called by owner methods only)" if f.qual not in WRITERS[attr] else ""),
                       f"{how} of State.{attr} outside its owner methods {sorted(WRITERS[attr])}" + (f" (the helper is also called from `{via}`, which then writes the cache without the checks of the owner methods)" if via else ""))
     # R1c: compute() implementations are read-only on their argument
     for key, cn in ix.classes.items():
@@ -126,7 +127,7 @@ def r1_writers(ctx):
                     if isinstance(n, ast.Call) and isinstance(n.func, ast.Attribute) and n.func.attr in MUTATORS \
                             and isinstance(n.func.value, ast.Name) and n.func.value.id in params:
                         bad = n
-                ctx.check(bad is None, "C01.R1c", f, bad or b, "compute only reads its `state` argument",
+                ctx.check(bad is None, R1C, f, bad or b, "compute only reads its `state` argument",
                           "compute writes through its `state` argument (the cache dictionary)")
 
 
